@@ -913,7 +913,14 @@ def poll_stream(env, specs):
     ends, values = [], []
     for spec in specs:
         v = msg_value(spec)
-        (a.send if spec[0] == "str" else a.send_structured)(v)
+        try:
+            (a.send if spec[0] == "str" else a.send_structured)(v)
+        except Exception as e:      # the real sender refuses a message the property quantifies over: a verdict
+            raise core.ImplementationFailure(
+                "sockpoll:send-raises:" + type(e).__name__,
+                "Socket.%s of message %r (kind, size, fill) raised %r; nothing of it (or of later messages) reaches "
+                "the peer" % ("send" if spec[0] == "str" else "send_structured", spec, e),
+                {"stage": "sockpoll", "msgs": [list(x) for x in specs], "failing_message": list(spec)})
         ends.append(len(w.data))
         values.append(v)
     return w.data, ends, values
